@@ -29,7 +29,7 @@ def plan(tier):
 def _cases(draw):
     size = draw(st.sampled_from(["small", "small", "medium", "any"]))
     lo, hi = {"small": (1.5, 5.0), "medium": (4.0, 12.0), "any": (0.5, 30.0)}[size]
-    cell = draw(gc.cell_descs(lo=lo, hi=hi, kinds=("orth", "tric", "sheared")))
+    cell = draw(gc.cell_descs(lo=lo, hi=hi, kinds=("orth", "tric", "sheared", "special")))
     pbc = draw(gc.pbcs)
     n = draw(st.integers(1, 30 if size != "small" else 12))
     shape = draw(st.sampled_from(["gas", "layer", "chain", "blob"]))
@@ -42,7 +42,9 @@ def _cases(draw):
     thr = draw(gc.ffloat(0.3, 3.5))
     d = {"cell": cell, "pbc": pbc, "shape": shape, "axis": ax, "frac": frac, "Z": Z, "radii": rk, "custom": custom, "thr": thr, "size": size}
     if draw(st.integers(0, 2)) == 0:
-        d["shifts"] = [[draw(st.integers(-5, 5)) for _ in range(3)] for _ in range(n)]
+        # atoms stored in other periodic images: anywhere within +-5 cells, or all within ONE cell below / above the home cell
+        rng_ = draw(st.sampled_from([(-5, 5), (-1, 0), (0, 1), (-1, 1)]))
+        d["shifts"] = [[draw(st.integers(rng_[0], rng_[1])) for _ in range(3)] for _ in range(n)]
     if draw(st.integers(0, 3)) == 0:
         # a non-periodic cell vector leaning strongly along a periodic one (b' = b + k a): a legitimate description of the same
         # slab / wire in which atoms inside the cell can be many periodic vectors apart
